@@ -90,9 +90,21 @@ func SimC02(c *CheckCtx, i int, r *Rng) error {
 	// then one source edit gives the victim run work to do
 	var setup []Op
 	if r.P(0.85) {
-		setup = append(setup, Op{Kind: "run", Run: mkRun(true)})
+		setupRun := mkRun(true)
+		if !real && r.P(0.5) {
+			// the outputs on disk come from other generator versions: the victim run has to CHANGE files,
+			// so an output that silently stays as it was is visible
+			old := []proto.GenScript{Probe()}
+			scfg := DrawScriptConfig(r)
+			for _, n := range names {
+				old = append(old, DrawScript(r, scfg, m, n))
+			}
+			setupRun.Gens = old
+		}
+		setup = append(setup, Op{Kind: "run", Run: setupRun})
 		if r.P(0.5) {
-			setup = append(setup, Op{Kind: "run", Run: mkRun(true)})
+			again := *setupRun
+			setup = append(setup, Op{Kind: "run", Run: &again})
 		}
 		nEdits := r.Range(1, len(m.Pkgs))
 		for _, pi := range r.Perm(len(m.Pkgs))[:nEdits] {
@@ -178,6 +190,24 @@ func SimC02(c *CheckCtx, i int, r *Rng) error {
 			}
 			points = append(points, failurePoint{name: fmt.Sprintf("torn@%d:%s+%d", e.Exec, e.Path, j), fault: proto.Fault{ExecSeq: e.Exec, Do: fmt.Sprintf("kill-after:%d", j)}, how: h})
 		}
+	}
+	// the caller cancels the context at some callback or file-system event (gengo may ignore it, or fail)
+	for k := 0; k < 3 && len(evs) > 2; k++ {
+		e := evs[r.Intn(len(evs))]
+		points = append(points, failurePoint{name: fmt.Sprintf("cancel@%d:%s", e.Exec, e.Kind), fault: proto.Fault{ExecSeq: e.Exec, Do: "cancel"}})
+	}
+	// I/O errors on the output files: not a trigger the property names, but a failed run all the same -
+	// it must not leave stale output behind that later runs trust (E4)
+	for _, e := range evs {
+		isOut := strings.HasPrefix(filepath.Base(e.Path), base+".")
+		if !isOut || !(e.Kind == "os.rename" || (e.Kind == "os.open" && e.N&(os.O_WRONLY|os.O_RDWR) != 0) || (e.Kind == "os.write" && (e.Nth == 0 || r.P(0.02)))) {
+			continue
+		}
+		do := "errno:" + Pick(r, []string{"EACCES", "ENOSPC", "EISDIR", "EIO"})
+		if e.Kind == "os.write" {
+			do = "short:0:ENOSPC"
+		}
+		points = append(points, failurePoint{name: fmt.Sprintf("ioerr@%d:%s:%s", e.Exec, e.Kind, e.Path), fault: proto.Fault{ExecSeq: -1, Kind: e.Kind, Path: e.Path, Phase: "exec", Nth: e.Nth, Do: do}})
 	}
 	// a process that dies while loading has written nothing yet: the tree must be untouched
 	for _, pi := range r.Perm(len(m.Pkgs))[:min(2, len(m.Pkgs))] {
